@@ -341,11 +341,19 @@ func VerifKernelSchemaVersion(v string) bool {
 
 // ---- C19: Marshal order of "properties"
 
-// VerifKernelPropertyOrder: props = subset of {a,b,c,B}; order = sequence over {a,b,c,B,z}
+// VerifKernelPropertyOrder: props = subset of {a,b,a!,B}; order = sequence over {a,b,a!,B,z}
 // (z names no property; duplicates allowed). Duplicates are rejected by basicChecks;
 // otherwise the emitted key sequence is: listed-and-present names in list order, then
 // the remaining names ascending.
 func VerifKernelPropertyOrder(pa, pb, pc, pd bool, order string) bool {
+	// the letter c stands for the name "a!" ("a" is a proper prefix of it and '!' sorts below the
+	// closing quote of an encoded name); B differs from b only in letter case; z names no property
+	name := func(c byte) string {
+		if c == 'c' {
+			return "a!"
+		}
+		return string(c)
+	}
 	props := map[string]*Schema{}
 	if pa {
 		props["a"] = &Schema{}
@@ -354,16 +362,16 @@ func VerifKernelPropertyOrder(pa, pb, pc, pd bool, order string) bool {
 		props["b"] = &Schema{}
 	}
 	if pc {
-		props["c"] = &Schema{}
+		props["a!"] = &Schema{}
 	}
 	if pd {
-		props["B"] = &Schema{} // differs from "b" only in letter case
+		props["B"] = &Schema{}
 	}
 	// the list has spare capacity (as a list built by append has): Marshal must leave the
 	// list and the memory behind it alone
 	ord := make([]string, 0, len(order)+2)
 	for i := 0; i < len(order); i++ {
-		ord = append(ord, string(order[i]))
+		ord = append(ord, name(order[i]))
 	}
 	s := &Schema{Properties: props, PropertyOrder: ord}
 	dup := false
@@ -386,7 +394,7 @@ func VerifKernelPropertyOrder(pa, pb, pc, pd bool, order string) bool {
 		return false
 	}
 	for i := range ord {
-		if ord[i] != string(order[i]) {
+		if ord[i] != name(order[i]) {
 			return false
 		}
 	}
@@ -395,7 +403,7 @@ func VerifKernelPropertyOrder(pa, pb, pc, pd bool, order string) bool {
 			return false
 		}
 	}
-	// expected key sequence
+	// expected key sequence: listed-and-present names in list order, then the rest ascending
 	present := func(c byte) bool {
 		switch c {
 		case 'a':
@@ -409,13 +417,13 @@ func VerifKernelPropertyOrder(pa, pb, pc, pd bool, order string) bool {
 		}
 		return false
 	}
-	want := ""
+	var want []string
 	for i := 0; i < len(order); i++ {
 		if present(order[i]) {
-			want += string(order[i])
+			want = append(want, name(order[i]))
 		}
 	}
-	for _, c := range []byte("Babc") { // ascending byte order
+	for _, c := range []byte("Bacb") { // the names B < a < a! < b in ascending byte order
 		if !present(c) {
 			continue
 		}
@@ -426,26 +434,19 @@ func VerifKernelPropertyOrder(pa, pb, pc, pd bool, order string) bool {
 			}
 		}
 		if !listed {
-			want += string(c)
+			want = append(want, name(c))
 		}
 	}
-	// keys of the emitted object: every value is the literal true
-	got := ""
-	for i := 0; i < len(bs); i++ {
-		if bs[i] == '"' && i+2 < len(bs) && bs[i+2] == '"' {
-			got += string(bs[i+1])
-			i += 2
-		}
-	}
+	// every value is the literal true
 	exp := "{"
 	for i := 0; i < len(want); i++ {
 		if i > 0 {
 			exp += ","
 		}
-		exp += "\"" + string(want[i]) + "\":true"
+		exp += "\"" + want[i] + "\":true"
 	}
 	exp += "}"
-	return got == want && string(bs) == exp
+	return string(bs) == exp
 }
 
 // ---- C14: what Resolve computed, in a canonical rendering
